@@ -27,8 +27,8 @@ class Check(PropertyCheck):
     QUICK_N = 200
 
     def make_impl(self, scenario):
-        from impl_ext import ImplFeat
-        return ImplFeat(scenario.meta.get("filter_style", "callable"))
+        from impl_ext import ImplGraph
+        return ImplGraph(scenario.meta.get("filter_style", "callable"))
 
     def generate(self, rng, n, tier):
         for _ in range(n):
@@ -50,6 +50,10 @@ class Check(PropertyCheck):
                 lines.append(f"fobs {k} {fts}")
         if rng.random() < 0.7:
             lines.append("fcomp all")
+        if rng.random() < 0.4:
+            # the graph updater is one of the built-in observers the property names
+            lines.append(f"fres {rng.choice(['disjunctive', 'agent_task', 'agent_task_jobs', 'complete_agent_task'])} "
+                         f"{rng.choice([0, 1])} {rng.choice([0, 1])}")
         lines.append("mark setup-done")
         lines.append("fsnap")
         tr = gen.Tracker(jobs)
@@ -83,7 +87,7 @@ class Check(PropertyCheck):
     def oracle(self, impl, scenario, index, line, out, ctx):
         """Shadow world: fresh real objects that only ever see the events after the last reset."""
         res = []
-        from impl_ext import ImplFeat
+        from impl_ext import ImplGraph as ImplFeat
         if line == "new":
             ctx["setup"] = []
             ctx["shadow"] = None
